@@ -396,7 +396,7 @@ Proof.
   induction l as [|x l IH] using rev_ind; [reflexivity|].
   unfold ema_run in *. rewrite fold_left_app. cbn [fold_left]. rn_simpl. rewrite IH.
   destruct l as [|x0 tl]; [cbn; f_equal; lra|].
-  cbn [app]. f_equal. unfold exponential_smoothing, ema_closed. rn_simpl.
+  cbn [app]. f_equal. unfold exponential_smoothing, Gen.Math.exponential_smoothing, ema_closed. rn_simpl.
   rewrite app_length. cbn [length]. replace (length tl + 1)%nat with (S (length tl)) by lia.
   rewrite ages_snoc, map_app, sum_list_app, map_map. cbn [map sum_list fst snd Rpow_def.pow].
   rewrite (sum_list_ext (fun kx : nat * R => alpha * ((1 - alpha) * (1 - alpha) ^ fst kx) * snd kx)
